@@ -56,6 +56,8 @@ def signature(ev, field):
         case = "code1" if c.get("alt") == 1 else "other"
     elif field == "label05":
         case = f"df{c.get('df')}"
+    elif field == "context":
+        case = f"{ev['k']}:df{ev['c'].get('df', '-')}"
     elif field in ("outcome", "binding"):
         case = f"{ev['k']}:{ev.get('out')}"
     return {"field": field, "case": case}
@@ -311,6 +313,10 @@ def check(run):
     })
     run.assumptions += [
         "bit assembler and parity by long division in the harness are trusted (validated by C02)",
+        "decoding is a function of the frame bytes: in the main pass every 3rd decode follows the decode of a "
+        "truncated prefix of the same frame and every 5th follows decodes of the previous and of the current "
+        "frame with one header field changed (same ME/MB); every frame is decoded again in reversed order and "
+        "the two JSON texts must be equal (obligation 'context', a comparison of two outputs of the code)",
         "polar->value scaling in the harness is a fixed multiplication and rounding per observed key",
         "decoded value within half a quantisation step of the nominal value of the code (the encoded "
         "true value lies within half a step of it, the property allows one step in total)",
